@@ -8,6 +8,7 @@ CONSTANT AOs = {FALSE}
 CONSTANT MaxPending = 0
 CONSTANT MaxInter = 2
 CONSTANT Acts <- ATrace
+CONSTANT PurgeRace = FALSE
 CONSTANT RecordReads = TRUE
 CONSTANT HitSteps = TRUE
 SPECIFICATION CSpec
